@@ -130,8 +130,8 @@ def run(repo: Repo) -> Result:
                     # handing the dict's own answer straight back (`return self._cache.get(key, default)`)
                     # is presence by key; the hazard is *testing* the value (is None / truthiness)
                     par = pm_.get(id(c))
-                    if isinstance(par, ast.Return) and callee_name(c) == "get" and name not in ("get", "__getitem__", "__contains__"):
-                        continue
+                    if isinstance(par, ast.Return) and callee_name(c) in ("get", "pop") and name not in ("get", "__getitem__", "__contains__"):
+                        continue  # (a removal has no recency to refresh; the dict decides presence by key)
                     res.add("C24-PRESENCE", m.qual, f"_cache.{callee_name(c)}", f"{m.qual} reads the map with `{text(c)[:50]}`: presence is then decided from the stored value, so a cached None is reported missing (and the read does not refresh recency)", m.file, c.lineno)
         g = k.methods.get("get")
         if g is None:
